@@ -254,7 +254,14 @@ func addUnknownThriftFields(t *simrt.Tape, v *TVal) int {
 		if t.Chance(1, 4, "unk.thrift") {
 			id := 20000 + t.Intn(12000, "unk.id")
 			if v.T.St.ByID(id) == nil {
-				raws := [][]byte{{tI32, byte(id >> 8), byte(id), 0, 0, 0, 7}, {tSTRING, byte(id >> 8), byte(id), 0, 0, 0, 2, 'h', 'i'}, {tSTRUCT, byte(id >> 8), byte(id), tBOOL, 0, 1, 1, 0}, {tLIST, byte(id >> 8), byte(id), tBYTE, 0, 0, 0, 2, 1, 2}}
+				raws := [][]byte{{tI32, byte(id >> 8), byte(id), 0, 0, 0, 7}, {tSTRING, byte(id >> 8), byte(id), 0, 0, 0, 2, 'h', 'i'}, {tSTRUCT, byte(id >> 8), byte(id), tBOOL, 0, 1, 1, 0}, {tLIST, byte(id >> 8), byte(id), tBYTE, 0, 0, 0, 2, 1, 2},
+					// containers of fixed-size elements with 0, 2 and 3 entries (skipped by size arithmetic, not element-wise)
+					{tMAP, byte(id >> 8), byte(id), tI32, tI64, 0, 0, 0, 2, 0, 0, 0, 1, 0, 0, 0, 0, 0, 0, 0, 5, 0, 0, 0, 2, 0, 0, 0, 0, 0, 0, 0, 6},
+					{tMAP, byte(id >> 8), byte(id), tBYTE, tBOOL, 0, 0, 0, 3, 1, 1, 2, 0, 3, 1},
+					{tMAP, byte(id >> 8), byte(id), tI16, tDOUBLE, 0, 0, 0, 0},
+					{tLIST, byte(id >> 8), byte(id), tI64, 0, 0, 0, 3, 0, 0, 0, 0, 0, 0, 0, 1, 0, 0, 0, 0, 0, 0, 0, 2, 0, 0, 0, 0, 0, 0, 0, 3},
+					{tSET, byte(id >> 8), byte(id), tI32, 0, 0, 0, 2, 0, 0, 0, 9, 0, 0, 0, 8},
+					{tMAP, byte(id >> 8), byte(id), tSTRING, tI32, 0, 0, 0, 2, 0, 0, 0, 1, 'a', 0, 0, 0, 1, 0, 0, 0, 2, 'b', 'c', 0, 0, 0, 2}}
 				fv := TFieldVal{UnknownKey: fmt.Sprintf("#%d", id), UnknownRaw: raws[t.Intn(len(raws), "unk.raw")]}
 				pos := t.Intn(len(v.Fields)+1, "unk.pos")
 				v.Fields = append(v.Fields, TFieldVal{})
